@@ -150,8 +150,14 @@ def ctor_productions(cfg, prods, any_spec):
     sym, excluded = any_spec
     n_added = len([t for t in cfg.terminals if t not in excluded])
     out = {k: list(v) for k, v in prods.items()}
-    out[sym] = out[sym][:len(out[sym]) - n_added] + [llparser.AnyTokenExcept(*excluded)]
+    # (such a helper object is typically a module-level constant of the caller: one object per exclusion
+    # list serves every grammar and every tokenizer of this process)
+    helper = _ANY_EXCEPT.setdefault(tuple(excluded), llparser.AnyTokenExcept(*excluded))
+    out[sym] = out[sym][:len(out[sym]) - n_added] + [helper]
     return out
+
+
+_ANY_EXCEPT = {}
 
 
 def run_case(ctx, mon, cfg_id, terms, prods, inputs_spec=None, rng=None, any_spec=None):
